@@ -498,7 +498,7 @@ func init() {
 	register(&PropDef{
 		ID: "C17", Level: "exploration", Engine: "fedsim",
 		Rule: "case = one activity (Create/Announce/Like/Listen/Add) whose to/cc/audience mix owned collections, foreign collections, owned non-collections and actors, with a reply chain of depth 0-5 through embedded values and dereferenced IRIs (inReplyTo/tag/object/target) owned at a random level or nowhere, unreachable / unknown-type links, forwarding depth limit 1-4, filter all/none/first/odd, (also DAG-shaped: two branches joining), an application filter written with the in-place idiom, delivered 1-3 times to one or two local inboxes sequentially or concurrently under a seeded schedule; one case in eight is swept with every single seam-call fault, one in eight crashes the server at a random step and lets the peer redeliver (forwarded at most once across the crash); oracle = model of the three conditions on the pre-run snapshot vs FilterForwarding input, forwarding BatchDeliver (count, recipients, payload) and the number of 'seen' records. distinct = distinct (scenario, event sequence).",
-		QuickCases: 1200, QuickBudgetS: 60, ThoroughBudgetS: 600,
+		QuickCases: 2400, QuickBudgetS: 150, ThoroughBudgetS: 600,
 		Drive: func(c *DriveCtx, r *Rng, k int) {
 			if k%8 == 4 {
 				// crash class: the server dies at a random step, then the peer redelivers; forwarding at most once overall
